@@ -34,6 +34,13 @@ class P(MetProp):
         step = rng.choice([S, S, 2 * S, 3 * S, 5 * S, S // 2])
         k = rng.randint(2, 6)
         overlap = rng.random() < 0.5
+        longr = (not overlap) and rng.random() < 0.2
+        if longr:
+            # a range longer than the 30 s look-back of instant queries: the storage window must still cover the whole range
+            rng_ns = rng.choice([40, 60, 45]) * S
+            step = rng.choice([10, 20, 30]) * S
+            k = rng.randint(1, 3)
+            off = rng.choice([0, 0, 5 * S])
         if overlap:
             # long history of a sliding window: many steps, each sample seen by several consecutive windows
             step = rng.choice([S, S, S // 2])
@@ -72,7 +79,7 @@ class P(MetProp):
         if op in mgen.GROUPABLE and rng.random() < 0.4:
             g = grouping(rng.choice([["app"], ["lvl"], [], ["app", "nosuch"]]), without=rng.random() < 0.4)
         lines = ("x",) if op not in ("bytes_over_time", "bytes_rate") else ("x", "xyz", "hello")
-        recs = m.records(rng.randint(8, 16) if overlap else rng.randint(3, 12), start - off - rng_ns - S, (end - start) + rng_ns + 2 * S, label_sets, lines=lines, edge_ts=edges, numeric=numeric, values=values)
+        recs = m.records(rng.randint(8, 16) if (overlap or longr) else rng.randint(3, 12), start - off - rng_ns - S, (end - start) + rng_ns + 2 * S, label_sets, lines=lines, edge_ts=edges, numeric=numeric, values=values, tick=(5 * S if longr else S // 2))
         if len(lines) > 1 or rng.random() < 0.5:
             pipe = [m.g.st_dropkeep("drop", ["msg"], [])]
         sel = sel_all(m)
